@@ -213,9 +213,9 @@ func cmdCheck(args []string) int {
 		return 2
 	}
 	defer b.cleanup()
-	timeout := 40 * time.Second
+	timeout := 25 * time.Second
 	if *tier == "thorough" {
-		timeout = 180 * time.Second
+		timeout = 120 * time.Second
 	}
 	rn := newRunner(b, timeout)
 
@@ -297,6 +297,11 @@ func cmdCheck(args []string) int {
 				}
 				if !*triage && len(found) >= 24 {
 					stop = true
+				}
+				for _, v := range oc.Viols {
+					if v.Oracle == "hang" && sigSeen["hang"] >= 2 {
+						stop = true // every further hanging plan costs two watchdog periods
+					}
 				}
 				fmu.Unlock()
 			}
